@@ -140,6 +140,11 @@ class Rotate(Domain):
             rotation_matrix, shifted_points.unsqueeze(-1)
         )
         shifted_points = rotated_points.squeeze(-1) + translate_values
+        # parameters may also be carried by the points: hand all of them on
+        all_data = points.join(params)
+        other = [v for v in all_data.space if v not in self.space]
+        if other:
+            params = all_data[:, other]
         return self.domain._contains(Points(shifted_points, self.space), params)
 
     def sample_random_uniform(
